@@ -23,7 +23,7 @@ LEVEL_RULE = (
 EXHAUSTIVE_SUBDOMAINS = ["every NL band 1..59 x hemisphere x parity x {airborne,surface} (directed mid-band positions)"]
 ASSUMPTIONS = ["reference latitude clamped to [-90,90], reference longitude wrapped to [-180,180)",
                "box shrunk by two quantisation steps so that float round-off cannot move a reference outside it"]
-REQUIRED = ["airborne", "decoded_latitude_exactly_87", "surface", "parity0", "parity1", "ni_le_0", "ni_gt_0", "ref_across_equator", "ref_across_antimeridian",
+REQUIRED = ["airborne", "decoded_latitude_exactly_87", "grid_rows_next_to_the_equator", "surface", "parity0", "parity1", "ni_le_0", "ni_gt_0", "ref_across_equator", "ref_across_antimeridian",
             "ref_across_greenwich", "corner", "routing_checked", "ref_lat_exactly_zero", "ref_lon_exactly_zero", "ref_lon_not_folded", "ref_lon_0_360_convention", "ref_a_hair_inside_box_edge", "reference_is_previous_fix"] + \
            ["band%d_%s" % (nl, s) for nl in range(1, 60) for s in ("air", "sfc")]
 
@@ -193,6 +193,17 @@ def cases(ctx):
                         if ctx.mine(i):
                             yield "ref", mkcase(drng, lat0, lon0, par, sfc, offs=[[oy, ox], [-oy * 0.5, -ox]])
                         i += 1
+    # the first grid rows next to the equator (latitude field 1, 2, 3 and all-ones ...): NL is 59.999999999998 there - a rounding
+    # before the floor turns it into 60
+    for par in (0, 1):
+        for sfc in (False, True):
+            step = 360.0 / (60 - par) / (4.0 if sfc else 1.0) / 131072.0
+            for krow in (1, 2, 3, -1, -2, -3):
+                for lon0 in (drng.uniform(-180, 180), drng.uniform(-180, 180), 77.7):
+                    if ctx.mine(i):
+                        yield "ref", mkcase(drng, krow * step, lon0, par, sfc, offs=[[0.3, 0.3], [-0.9, 0.9]])
+                        ctx.hit("grid_rows_next_to_the_equator")
+                    i += 1
     # zone-centre positions with references a hair inside the edge of the half-zone box
     for k in range(ctx.share(3000 if quick else 60000)):
         par, sfc = rng.randrange(2), rng.random() < 0.4
